@@ -27,30 +27,76 @@ def watched(p):
     return bool(ROOT) and p.startswith(ROOT)
 
 
+INO: dict = {}      # live map path -> inode id (appends follow the open file, not its name)
+_next = [0]
+
+
+def _ino_of(path, create=False):
+    if create or path not in INO:
+        if create:
+            _next[0] += 1
+            INO[path] = "new:%d" % _next[0]
+        else:
+            INO[path] = "pre:" + os.path.relpath(path, ROOT)
+    return INO[path]
+
+
+BUFFER = 8192   # io.DEFAULT_BUFFER_SIZE: what CPython's BufferedWriter / TextIOWrapper hold back before the OS sees it
+
+
 class ShimFile:
-    def __init__(self, path, mode, encoding, real):
-        enc = getattr(real, "encoding", None) or encoding or "utf-8"   # 'locale' etc. are resolved by the real file object
-        self.path, self.mode, self.encoding, self.real, self.closed_ = path, mode, enc, real, False
+    """A write-mode file whose buffering is explicit: bytes given to write() reach the operating system (and the effect
+    log) only on flush(), close() or when more than BUFFER bytes are pending - as with CPython's buffered files.  A
+    process that dies loses what is still pending; an effect issued in between (os.replace ...) really is in between."""
+
+    def __init__(self, path, mode, encoding, real, ino):
+        import locale
+        enc = encoding if encoding and encoding != "locale" else (locale.getencoding() if hasattr(locale, "getencoding") else "utf-8")
+        self.path, self.mode, self.encoding, self.real, self.closed_, self.ino = path, mode, enc, real, False, ino
+        self.binary = "b" in mode
+        self.pending = bytearray()
+        self.name = path
 
     def write(self, s):
-        b = s if isinstance(s, (bytes, bytearray)) else s.encode(self.encoding)
-        LOG.append(("APPEND", self.path, bytes(b)))
-        r = self.real.write(s)
-        self.real.flush()
-        return r
+        b = bytes(s) if isinstance(s, (bytes, bytearray, memoryview)) else s.encode(self.encoding)
+        self.pending += b
+        if len(self.pending) > BUFFER:
+            self._issue()
+        return len(s)
+
+    def _issue(self):
+        if self.pending:
+            data = bytes(self.pending)
+            del self.pending[:]
+            LOG.append(("APPEND", self.path, data, self.ino))
+            self.real.write(data)
 
     def writelines(self, lines):
         for l in lines:
             self.write(l)
 
     def flush(self):
-        self.real.flush()
+        self._issue()
 
     def close(self):
         if not self.closed_:
             self.closed_ = True
+            self._issue()
             LOG.append(("CLOSE", self.path))
             self.real.close()
+
+    @property
+    def closed(self):
+        return self.closed_
+
+    def writable(self):
+        return True
+
+    def readable(self):
+        return False
+
+    def fileno(self):
+        return self.real.fileno()
 
     def __enter__(self):
         return self
@@ -58,8 +104,11 @@ class ShimFile:
     def __exit__(self, *a):
         self.close()
 
-    def __getattr__(self, n):
-        return getattr(self.real, n)
+    def __del__(self):
+        try:
+            self.close()
+        except Exception:  # noqa
+            pass
 
 
 def shim_open(file, mode="r", buffering=-1, encoding=None, errors=None, newline=None, closefd=True, opener=None):
@@ -72,19 +121,23 @@ def shim_open(file, mode="r", buffering=-1, encoding=None, errors=None, newline=
             raise FAIL[ap]
     if isinstance(file, int):
         path = FDS.get(file)
-        real = _real_open(file, mode, buffering, encoding, errors, newline, closefd, opener)
         if path and any(c in mode for c in "wax+"):
-            return ShimFile(path, mode, encoding, real)
-        return real
+            rmode = ("w" if "w" in mode else ("a" if "a" in mode else "x")) + "b"
+            real = _real_open(file, rmode, 0, closefd=closefd)
+            return ShimFile(path[0], mode, encoding, real, path[1])
+        return _real_open(file, mode, buffering, encoding, errors, newline, closefd, opener)
     if watched(file) and any(c in mode for c in "wax+"):
         path = os.path.abspath(os.fspath(file))
         existed = os.path.exists(path)
         if "w" in mode:
-            LOG.append(("TRUNC", path) if existed else ("CREATE", path))
+            LOG.append(("TRUNC", path) if existed else ("CREATE", path, _ino_of(path, create=True)))
         elif not existed:
-            LOG.append(("CREATE", path))
-        real = _real_open(file, mode, buffering, encoding, errors, newline, closefd, opener)
-        return ShimFile(path, mode, encoding, real)
+            LOG.append(("CREATE", path, _ino_of(path, create=True)))
+        if "+" in mode:
+            raise RuntimeError("faultfs: update mode %r is not modelled" % mode)
+        rmode = ("w" if "w" in mode else ("a" if "a" in mode else "x")) + "b"
+        real = _real_open(file, rmode, 0)
+        return ShimFile(path, mode, encoding, real, _ino_of(path))
     return _real_open(file, mode, buffering, encoding, errors, newline, closefd, opener)
 
 
@@ -93,19 +146,19 @@ def shim_os_open(path, flags, mode=0o777, *, dir_fd=None):
         p = os.path.abspath(os.fspath(path))
         existed = os.path.exists(p)
         if flags & os.O_CREAT and not existed:
-            LOG.append(("CREATE", p))
+            LOG.append(("CREATE", p, _ino_of(p, create=True)))
         elif flags & os.O_TRUNC and existed:
             LOG.append(("TRUNC", p))
         fd = _real_os["open"](path, flags, mode, dir_fd=dir_fd)
         if flags & (os.O_WRONLY | os.O_RDWR):
-            FDS[fd] = p
+            FDS[fd] = (p, _ino_of(p))
         return fd
     return _real_os["open"](path, flags, mode, dir_fd=dir_fd)
 
 
 def shim_os_write(fd, data):
     if fd in FDS:
-        LOG.append(("APPEND", FDS[fd], bytes(data)))
+        LOG.append(("APPEND", FDS[fd][0], bytes(data), FDS[fd][1]))
     return _real_os["write"](fd, data)
 
 
@@ -117,7 +170,12 @@ def shim_os_close(fd):
 def _mk2(name, tag):
     def f(a, b, *ar, **kw):
         if watched(a) or watched(b):
-            LOG.append((tag, os.path.abspath(os.fspath(a)), os.path.abspath(os.fspath(b))))
+            pa, pb = os.path.abspath(os.fspath(a)), os.path.abspath(os.fspath(b))
+            LOG.append((tag, pa, pb))
+            ino = _ino_of(pa)
+            if tag == "REPLACE":
+                INO.pop(pa, None)
+            INO[pb] = ino
         return _real_os[name](a, b, *ar, **kw)
     return f
 
@@ -134,6 +192,8 @@ def install(root):
     global ROOT
     ROOT = os.path.abspath(root)
     del LOG[:]
+    INO.clear()
+    FDS.clear()
     builtins.open = shim_open
     io.open = shim_open
     os.open, os.write, os.close = shim_os_open, shim_os_write, shim_os_close
@@ -170,28 +230,32 @@ def snapshot(root):
 
 
 def apply_effects(model, effects, root):
-    m = dict(model)
+    """model: {relative path: bytes | None(dir)}.  Appends follow the inode of the open file (a file that was renamed
+    while open keeps receiving the bytes under its new name)."""
+    paths = {k: (None if v is None else "pre:" + k) for k, v in model.items()}
+    data = {"pre:" + k: v for k, v in model.items() if v is not None}
     for e in effects:
         k = os.path.relpath(e[1], root)
-        if e[0] in ("CREATE", "TRUNC"):
-            m[k] = b""
+        if e[0] == "CREATE":
+            paths[k] = e[2]
+            data[e[2]] = b""
+        elif e[0] == "TRUNC":
+            data[paths[k]] = b""
         elif e[0] == "APPEND":
-            m[k] = (m.get(k) or b"") + e[2]
+            data[e[3]] = data.get(e[3], b"") + e[2]
         elif e[0] == "REPLACE":
-            m[os.path.relpath(e[2], root)] = m.pop(k)
+            paths[os.path.relpath(e[2], root)] = paths.pop(k)
         elif e[0] == "LINK":
-            m[os.path.relpath(e[2], root)] = m[k]
-        elif e[0] == "UNLINK":
-            m.pop(k, None)
-        elif e[0] == "RMDIR":
-            m.pop(k, None)
+            paths[os.path.relpath(e[2], root)] = paths[k]
+        elif e[0] in ("UNLINK", "RMDIR"):
+            paths.pop(k, None)
         elif e[0] == "MKDIR":
-            m[k] = None
+            paths[k] = None
         elif e[0] == "CLOSE":
             pass
         else:
             raise RuntimeError("unknown effect %r" % (e,))
-    return m
+    return {k: (None if ino is None else data.get(ino, b"")) for k, ino in paths.items()}
 
 
 def crash_states(pre, effects, root):
@@ -202,7 +266,7 @@ def crash_states(pre, effects, root):
             data = effects[i][2]
             for k in range(1, len(data)):
                 yield (f"effect {i} ({effects[i][0]}) cut at byte {k} of {len(data)}",
-                       apply_effects(pre, list(effects[:i]) + [("APPEND", effects[i][1], data[:k])], root))
+                       apply_effects(pre, list(effects[:i]) + [("APPEND", effects[i][1], data[:k], effects[i][3])], root))
 
 
 def materialize(model, root):
@@ -219,4 +283,12 @@ def materialize(model, root):
 
 
 def describe(effects, root):
-    return [(e[0], os.path.relpath(e[1], root)) + ((len(e[2]),) if e[0] == "APPEND" else ((os.path.relpath(e[2], root),) if len(e) > 2 else ())) for e in effects]
+    out = []
+    for e in effects:
+        d = [e[0], os.path.relpath(e[1], root)]
+        if e[0] == "APPEND":
+            d.append(len(e[2]))
+        elif e[0] in ("REPLACE", "LINK"):
+            d.append(os.path.relpath(e[2], root))
+        out.append(d)
+    return out
